@@ -421,6 +421,7 @@ def check_C14(ctx, rep):
                 eh.append(b_)
     # the exponent may be carried in any signed integer type that holds -1074..1023
     EXP_TYS = ("i32", "i64", "i16", "isize", "i128")
+    CURRIED = []
     mp = [(b, ity) for ity in EXP_TYS for b in fx.by_sig(["f64", ity], "f64") if pol.has_loop_or_recursion(b)]
     if not mp:
         # the scaling helper may also be a local closure of exp2: any looping closure taking (f64, int)
@@ -428,6 +429,15 @@ def check_C14(ctx, rep):
             sig = [F.norm_ty(l["ty"]) for l in b.mir["locals"][2:1 + b.mir["arg_count"]]]
             if b.kind == "Closure" and pol.has_loop_or_recursion(b) and len(sig) == 2 and sig[0] == "f64" and sig[1] in EXP_TYS:
                 mp.append((b, sig[1]))
+        if not mp:
+            # curried: a looping closure taking the word, returned by a private fn(<signed int>) that captures the exponent
+            for b in f.live:
+                sig = [F.norm_ty(l["ty"]) for l in b.mir["locals"][2:1 + b.mir["arg_count"]]]
+                if b.kind == "Closure" and pol.has_loop_or_recursion(b) and sig == ["f64"]:
+                    par = [p_ for p_ in f.live if p_.kind != "Closure" and b.key.startswith(p_.key + "::") and not p_.reachable
+                           and len(p_.inputs) == 1 and p_.inputs[0] in EXP_TYS]
+                    if par:
+                        mp.append((b, par[0].inputs[0])); CURRIED.append(True)
     MP_TY = mp[0][1] if mp else "i32"
     mp = [b for b, _ in mp]
     rep.check(len(eh) == 1, "R35", "exp(n/2) table function (role-identified)", "anchor-lost:exp_half", "expected exactly one private fn(i32) -> TwoFloat, found %s (reason=anchor-lost)" % [b.ident() for b in eh], nontrivial=False)
@@ -534,7 +544,9 @@ def check_C14(ctx, rep):
         ki = cast("FloatToInt", "f64", MP_TY, k).t
         if not fx.fts:
             rep.fail("R35", "exp2 renormalisation", "anchor-lost:fast2sum", "no Fast2Sum primitive (reason=anchor-lost)"); return None
-        if mp[0].kind == "Closure":
+        if mp[0].kind == "Closure" and CURRIED:
+            mpc = lambda w: mk("call", MP, mk("agg", ("closure", mp[0].key), (ki,)), mk("agg", ("tuple",), (w,)))
+        elif mp[0].kind == "Closure":
             envs = [n[2] for n in all_nodes(tuple(l[1] for _, l in vg.leaves(t) if l[0] == "leaf")) if tag(n) == "call" and n[1] == MP and len(n) == 4]
             env = envs[0] if envs else mk("agg", ("closure", mp[0].key), ())
             mpc = lambda w: mk("call", MP, env, mk("agg", ("tuple",), (w, ki)))
